@@ -58,7 +58,15 @@ func New(options ...VMOption) *VM {
 func (v *VM) btErr(r any) error {
 	bt := v.backtrace
 	var lines []string
-	i := v.frame.Codes[v.frame.N]
+	var i instruction
+	switch {
+	case v.frame.N < len(v.frame.Codes):
+		i = v.frame.Codes[v.frame.N]
+	case len(v.frame.Codes) > 0: // the frame ran off its end
+		i = v.frame.Codes[len(v.frame.Codes)-1]
+	case len(bt) > 0: // empty body: report the call site
+		i.Pos = bt[len(bt)-1]
+	}
 	lines = append(lines, fmt.Sprintf("%v: %v: %v", i.Pos.String(v.globals), i.Code, r))
 	for n := len(bt) - 1; n >= 0; n-- {
 		pos := bt[n]
